@@ -98,7 +98,7 @@ pub fn random_u256() -> U256 {
         #[cfg(gm_rs_verif)]
         crate::verif_hooks::override_candidate(&mut buf);
         ret = u256_from_be_bytes(&buf);
-        if u256_cmp(&ret, &SM2_P_MINUS_ONE) < 0 && ret != [0, 0, 0, 0] {
+        if u256_cmp(&ret, &crate::fields::fn64::SM2_N) < 0 && ret != [0, 0, 0, 0] {
             break;
         }
     }
